@@ -167,9 +167,12 @@ class Ctx:
         self.ops.append((op, expected, self.cur, label or op.get("op"), norm))
 
     def fail(self, kind, detail, known=None):
-        """a property failure observed on the real code (known = id of a listed finding, else None)"""
-        if known is not None:
-            self.known_hits.setdefault(known, {"kind": kind, "input": self.cur, "detail": detail})
+        """a property failure observed on the real code; `known` = id of a finding listed in
+        known_findings.json whose class the module has matched — an id that is not listed there
+        (status `finding`, same property) suppresses nothing"""
+        listed = {e["id"]: e for e in load_known(self.pid)}
+        if known is not None and known in listed:
+            self.known_hits.setdefault(known, {"kind": kind, "input": self.cur, "detail": detail, "line": listed[known]["line"]})
         else:
             self.failures.append({"kind": kind, "input": self.cur, "detail": detail})
 
@@ -269,7 +272,7 @@ def run_check(pid, module, argv):
     # 4. verdict
     lines, code = [], 0
     for kid, hit in ctx.known_hits.items():
-        lines.append(f"KNOWN-FINDING: property={pid} {kid}")
+        lines.append(f"KNOWN-FINDING: property={pid} {kid}: {hit['line']}")
     violations = 0
     if ctx.failures:
         f = min(ctx.failures, key=lambda f: size_of(f["input"]))
